@@ -58,6 +58,12 @@ def scenario(rnd, cid):
         ops.append("phase start")
         send(rnd.choice([3000, 8000]), size=rnd.choice([600, 1200]))   # several MB: beyond the socket buffers
         ops.append("phase bad")
+        if rnd.random() < 0.7:
+            # the endpoint was only slow (or not reading), it never went away: once it reads normally again everything that was
+            # not counted as a slow-connection drop arrives, on the one connection there ever was
+            ops.append("mode healthy")
+            send(rnd.choice([20, 200]), pace=50)
+            ops.append("phase resumed")
     else:
         first = "healthy" if kind == "closemid-idle" else rnd.choice(["blackhole", "slow", "healthy"])
         ops.append("cfg 0 %d %d %d 0 30 %s" % (rnd.choice([64, 1000]), connbuf, flush, first))
@@ -132,6 +138,16 @@ def monitor(lines, out):
                 return "healthy endpoint, yet %d lines were counted as connection-down" % ddown
             if len(missing) != dslow:
                 return "healthy endpoint: %d of %d handed-off lines were not received but %d slow_conn drops were counted" % (len(missing), len(sent), dslow)
+        elif label == "resumed":
+            allsent = [x for part in sent_by_phase[:i + 1] for x in part]
+            missing = [x for x in allsent if x not in got]
+            if endc["conn_down_no_spool"]:
+                return "the endpoint never went away, yet %d lines were counted as connection-down" % endc["conn_down_no_spool"]
+            nconn = sum(1 for o in out if o.startswith("recv "))
+            if nconn != 1:
+                return "the endpoint never closed its connection, yet the relay opened %d connections" % nconn
+            if len(missing) != endc["slow_conn"]:
+                return "endpoint slow, then reading again: %d of %d handed-off lines were not received but %d slow_conn drops were counted" % (len(missing), len(allsent), endc["slow_conn"])
         elif label == "down":
             ddown = c["conn_down_no_spool"] - prev["conn_down_no_spool"]
             if ddown != len(sent):
